@@ -6,8 +6,10 @@ from vlib import Oracle, build_lib, hx, md5
 
 THEOREMS = ["C01_factorisation_decodes", "C01_fast_generic_roundtrip", "C01_fast_extState_roundtrip", "C01_fastReset_history", "C01_initStream_ctx_ok", "C01_compress_then_decompress_safe", "C01_hc_mid_history", "C01_hc_mid_fresh_state", "C01_hc_mid_parser",
             "C01_hc_chain_history", "C01_hc_chain_fresh_state", "C01_hc_chain_parser", "C01_hc_chain_search",
-            "C01_hc_opt_history", "C01_hc_opt_parser", "C01_hc_opt_search"]
-CORRESPONDENCE = [cc.CHAIN_CORR, cc.CHAIN_SEARCH_CORR,
+            "C01_hc_opt_history", "C01_hc_opt_parser", "C01_hc_opt_search",
+            "C01_hc_chain_dictctx_probe_partial", "C01_hc_chain_dictctx_loop_n",
+            "C01_hc_chain_dictctx_search", "C01_hc_chain_dictctx_loadDict"]
+CORRESPONDENCE = [cc.CHAIN_CORR, cc.CHAIN_SEARCH_CORR, cc.CHAIN_DICT_CORR,
                   "Model.HcMidApi (LZ4MID_compress + one-shot HC entry points at levels 1-2, LZ4_compress_HC_destSize) == the real functions over call histories on one LZ4_streamHC_t (return value, consumed, bytes, both hash tables, end index, dirty flag after every call)",
                   "Model.FastApi.compress_fast_extState == LZ4_compress_default/_fast/_fast_extState (return value, bytes, context fields, hash table)",
                   "Model.FastApi.compress_fast_extState_fastReset == LZ4_compress_fast_extState_fastReset over call histories on one context (return value, bytes, context fields, hash table after every call)"]
